@@ -6,6 +6,7 @@ import (
 	"encoding/json"
 	"fmt"
 	"os"
+	"runtime"
 	"sort"
 	"strconv"
 	"sync"
@@ -59,7 +60,32 @@ func Seed() int64 {
 	return s
 }
 
+var memGuard sync.Once
+
+// startMemGuard ends the process with a harness error when the heap grows beyond a limit (default 24 GiB,
+// VERIF_MEM_LIMIT_GB): an exploration that runs away on a modified tree must not take the machine down.
+func startMemGuard() {
+	memGuard.Do(func() {
+		limit := uint64(24)
+		if v, err := strconv.Atoi(os.Getenv("VERIF_MEM_LIMIT_GB")); err == nil && v > 0 {
+			limit = uint64(v)
+		}
+		go func() {
+			var ms runtime.MemStats
+			for {
+				time.Sleep(3 * time.Second)
+				runtime.ReadMemStats(&ms)
+				if ms.HeapAlloc > limit<<30 {
+					fmt.Fprintf(os.Stderr, "HARNESS-ERROR: heap of %d MiB exceeds the limit of %d GiB; exploration aborted\n", ms.HeapAlloc>>20, limit)
+					os.Exit(4)
+				}
+			}
+		}()
+	})
+}
+
 func New(id string) *Report {
+	startMemGuard()
 	return &Report{ID: id, Tier: Tier(), Seed: Seed(), Classes: map[string]int64{}, Extra: map[string]interface{}{},
 		Exhaustive: true, start: time.Now(), vioSeen: map[string]int{}, maxSamples: 6}
 }
